@@ -53,8 +53,8 @@ type Case struct {
 }
 
 type core struct {
-	Name, ID, Msg                string
-	Field                        *string
+	Name, ID, Msg             string
+	Field                     *string
 	Timeout, Temporary, Fault bool
 }
 
@@ -394,6 +394,7 @@ func main() {
 	rng := vh.NewRNG(*seed)
 	res := vh.NewResult()
 	var cases []Case
+	var heapReplay *heapCase
 
 	if *replay != "" {
 		b, err := os.ReadFile(*replay)
@@ -403,11 +404,17 @@ func main() {
 		var rp struct {
 			Input Case `json:"input"`
 		}
-		if err := json.Unmarshal(b, &rp); err != nil || rp.Input.Tree == nil {
-			fmt.Println("replay file has no merge-tree input")
-			os.Exit(2)
+		var hp struct {
+			Input heapCase `json:"input"`
 		}
-		cases = append(cases, rp.Input)
+		if err := json.Unmarshal(b, &hp); err == nil && len(hp.Input.Ops) > 0 {
+			heapReplay = &hp.Input
+		} else if err := json.Unmarshal(b, &rp); err != nil || rp.Input.Tree == nil {
+			fmt.Println("replay file has no merge-tree or merge-history input")
+			os.Exit(2)
+		} else {
+			cases = append(cases, rp.Input)
+		}
 	} else {
 		maxAll, perN, extra := 5, 60, 300
 		if *tier == "thorough" {
@@ -559,6 +566,9 @@ func main() {
 			back = coreOf(goagrpc.NewServiceError(dec))
 			back.ID = ""
 		}
+		if status.Code(ge) != codes.Unknown {
+			res.Fail("grpc-code-table", fmt.Sprintf("a plain Go error is encoded with gRPC code %v, the documented table says Unknown", status.Code(ge)), m)
+		}
 		if st != 500 || !er.Fault || er.Name != "fault" {
 			res.Fail("plain-error-not-fault-500", fmt.Sprintf("plain error mapped to status %d name %q fault=%v", st, er.Name, er.Fault), m)
 		}
@@ -567,9 +577,10 @@ func main() {
 		res.Count("status_rows")
 	}
 
-	res.Evaluations = len(cases) + idx
+	nheap := runHeap(rng, *tier, *out, res, heapReplay)
+	res.Evaluations = len(cases) + idx + nheap
 	res.Distinct = len(distinct)
-	res.Rule = "merge trees: every tree shape over 1..N leaves (N=5 quick, 8 thorough) x random leaf vectors from {nil, plain, service(all flag/name/field/cause combinations), wrapped service}, plus random shapes over 2-8 leaves; non-trivial = at least two non-nil leaves, distinct = distinct (leaf vector, shape); status: all 8 flag vectors x 5 names x {direct, wrapped} + plain errors (exhaustive)"
+	res.Rule = "merge trees: every tree shape over 1..N leaves (N=5 quick, 8 thorough) x random leaf vectors from {nil, plain, service(all flag/name/field/cause combinations), wrapped service}, plus random shapes over 2-8 leaves; merge HISTORIES over 2-5 error variables with operands reused after they were merged into (MergeErrors updates its first argument in place); non-trivial = at least two non-nil leaves, distinct = distinct (leaf vector, shape); status: all 8 flag vectors x 5 names x {direct, wrapped} + plain errors (exhaustive); client-side flags for every status code 100-599 (exhaustive)"
 	for _, c := range cases {
 		res.Cases = append(res.Cases, c)
 	}
